@@ -134,7 +134,8 @@ def scenario_factory(prog, rep, cands, seen):
             if outcome != 'trap' or forwarded or not unchanged or decode or check_unsat(it, rep, cyc.total() != 0) is not None:
                 cands.add(kernel='s', role='refusal-not-clean', model=mdl(), **info)
             return
-        exp_fee = fv['send_transaction_base'] + fv['send_transaction_per_byte'] * payload.symlen.t
+        from mirsym.interp import sym_mul
+        exp_fee = fv['send_transaction_base'] + sym_mul(fv['send_transaction_per_byte'], payload.symlen.t)
         if outcome == 'trap':
             # legitimate traps: not enough cycles attached; the block source rejected the call (expect)
             enough = check_unsat(it, rep, cyc.avail0 >= exp_fee) is not None
